@@ -17,6 +17,8 @@ type SpecEnv struct {
 	vars    map[string]*Val
 	resolve func(name string) *Val
 	pkg     string // package path of the contract (for type names)
+	sink    *State // receives let-definitions (nil: lets are inlined)
+	nbound  int    // number of enclosing quantified variables
 }
 
 type specError struct{ msg string }
@@ -149,9 +151,27 @@ func (e *SpecEnv) eval(s SExpr) *Val {
 		return &Val{K: VInt, T: Ite(c, toInt(a), toInt(b))}
 	case SLet:
 		v := e.eval(n.Val)
+		sink := e.sink
+		if sink == nil {
+			sink = e.st
+		}
+		if e.nbound == 0 && sink != nil && e.x != nil {
+			switch v.K {
+			case VInt, VBool, VStr, VTime:
+				c := *v
+				c.T = e.x.define(sink, v.T, "let:"+n.Name)
+				v = &c
+			case VBig:
+				c := *v
+				c.T = e.x.define(sink, v.T, "let:"+n.Name)
+				v = &c
+			}
+		}
 		return e.with(n.Name, v).eval(n.Body)
 	case SQuant:
-		env := e
+		envc := *e
+		envc.nbound = e.nbound + 1
+		env := &envc
 		var vars []*Term
 		for _, p := range n.Vars {
 			b := Bound(p.Name, specSort(p.Type))
@@ -347,7 +367,7 @@ func (e *SpecEnv) index(v, i *Val) *Val {
 		return valOfSort(Select(v.T, scalar(i)))
 	case VSlice:
 		et := sliceElem(v.Typ)
-		return e.st.loadElem(et, v.T, Add(v.Off, toInt(i)), "", et)
+		return e.st.loadElem(et, v.T, ElemIdx(v.Off, toInt(i)), "", et)
 	case VMap:
 		_, et := mapTypes(v.Typ)
 		var ls []*Term
@@ -382,6 +402,9 @@ func (e *SpecEnv) call(n SCall) *Val {
 		}
 		o := *e
 		o.st = e.old
+		if o.sink == nil {
+			o.sink = e.st
+		}
 		return o.eval(n.Args[0])
 	case "len":
 		v := e.eval(n.Args[0])
@@ -429,6 +452,17 @@ func (e *SpecEnv) call(n SCall) *Val {
 	case "allocated":
 		// the reference existed before the call (is not a fresh allocation)
 		return boolVal(Lt(toInt(e.eval(n.Args[0])), e.st.NextRef))
+	}
+	if sig, ok := libUFs[id.Name]; ok {
+		var ts []*Term
+		for i, a := range n.Args {
+			t := scalar(e.eval(a))
+			if i < len(sig)-1 && t.Sort != sig[i] {
+				sfail("%s: argument %d has sort %s, want %s", id.Name, i, t.Sort, sig[i])
+			}
+			ts = append(ts, t)
+		}
+		return valOfSort(UF(id.Name, sig[:len(sig)-1], sig[len(sig)-1], ts...))
 	}
 	// spec function / predicate
 	if sf, ok := e.x.P.Specs.SpecFuncs[id.Name]; ok {
@@ -513,6 +547,18 @@ func (x *Exec) applySpec(e *SpecEnv, sf *SpecFunc, args []*Val) *Val {
 	}
 	x.declareSpec(sf)
 	return valOfSort(UF("spec:"+sf.Name, sorts, specSort(sf.Ret), ts...))
+}
+
+// library-level uninterpreted functions usable in contracts
+var libUFs = map[string][]string{
+	"hasPerm":      {SStr, SStr, SBool},
+	"moduleExists": {SStr, SBool},
+	"modaddr":      {SStr, SStr},
+	"validDenom":   {SStr, SBool},
+	"toBech32":     {SStr, SStr},
+	"fromBech32":   {SStr, SStr},
+	"strlen":       {SStr, SInt},
+	"intString":    {SInt, SStr},
 }
 
 var predSet = map[*SpecFunc]bool{}
